@@ -2,6 +2,7 @@ package labels
 
 import (
 	"regexp"
+	"regexp/syntax"
 	"strconv"
 	"strings"
 	"testing"
@@ -851,6 +852,95 @@ func c17IsFoldKeyCase(p, s string, got, want bool) bool {
 	return false
 }
 
+// Known root cause "merged-charclass-fold-flag": the parser merges single-rune
+// alternatives into one character class that keeps the FoldCase flag of the first
+// alternative (`(?i:a)|b` -> [Aab] flagged case-insensitive); findSetMatches then matches
+// the whole class with EqualFold, widening the case-sensitive member ("B" matches). The
+// signature is attached only to a spurious match of a pattern whose syntax tree (standard
+// library parser, same flags) holds a FoldCase class of <= 256 runes that is not closed
+// under simple folding.
+const c17SigMergedClass = "merged-charclass-fold-flag"
+
+func c17HasUnclosedFoldClass(re *syntax.Regexp) bool {
+	if re.Op == syntax.OpCharClass && re.Flags&syntax.FoldCase != 0 {
+		total := 0
+		for i := 0; i+1 < len(re.Rune); i += 2 {
+			total += int(re.Rune[i+1]-re.Rune[i]) + 1
+			if total > 256 {
+				break
+			}
+		}
+		if total <= 256 {
+			in := func(r rune) bool {
+				for i := 0; i+1 < len(re.Rune); i += 2 {
+					if re.Rune[i] <= r && r <= re.Rune[i+1] {
+						return true
+					}
+				}
+				return false
+			}
+			for i := 0; i+1 < len(re.Rune); i += 2 {
+				for r := re.Rune[i]; r <= re.Rune[i+1]; r++ {
+					for _, o := range c17Orbit(r) {
+						if !in(o) {
+							return true
+						}
+					}
+				}
+			}
+		}
+	}
+	for _, sub := range re.Sub {
+		if c17HasUnclosedFoldClass(sub) {
+			return true
+		}
+	}
+	return false
+}
+
+func c17IsMergedClassCase(p string) bool {
+	re, err := syntax.Parse(p, syntax.Perl|syntax.DotNL)
+	if err != nil {
+		return false
+	}
+	return c17HasUnclosedFoldClass(re)
+}
+
+// Known root cause "ci-prefix-map-byte-slice": a case-insensitive alternation with >= 16
+// literal-prefix members (`(?i:k.*|l0.*|…)`) looks the subject up in a prefix map with
+// s[:minPrefixLen], i.e. slices the subject by the byte length of the shortest pattern
+// prefix. Under case folding the subject's prefix can have another byte length (U+212A
+// KELVIN SIGN is 3 bytes and folds with k, U+017F LONG S is 2 bytes and folds with s), the
+// slice cuts a rune and the member is lost. The signature is attached only to a lost match
+// of a case-insensitive pattern with a wildcard and >= 16 alternatives when the subject or
+// the pattern holds a rune whose fold orbit mixes UTF-8 lengths.
+const c17SigPrefixSlice = "ci-prefix-map-byte-slice"
+
+func c17OrbitMixesLengths(r rune) bool {
+	if r == utf8.RuneError {
+		return false
+	}
+	n := utf8.RuneLen(r)
+	for _, o := range c17Orbit(r) {
+		if utf8.RuneLen(o) != n {
+			return true
+		}
+	}
+	return false
+}
+
+func c17IsPrefixSliceCase(p, s string) bool {
+	if !strings.Contains(p, "(?i") || !strings.Contains(p, ".") || strings.Count(p, "|") < 15 {
+		return false
+	}
+	for _, r := range p + s {
+		if c17OrbitMixesLengths(r) {
+			return true
+		}
+	}
+	return false
+}
+
 func c17Fail(p, s, what string, got, want, negated bool, m *labels.FastRegexMatcher, set []string) error {
 	msg := "pattern %q subject %q: %s=%v, but regexp ^(?s:…)$ says %v (optimized=%v, %d set matches)"
 	pg, pw := got, want
@@ -859,6 +949,12 @@ func c17Fail(p, s, what string, got, want, negated bool, m *labels.FastRegexMatc
 	}
 	if c17IsFoldKeyCase(p, s, pg, pw) {
 		return ev.FailSig(c17SigFoldKey, msg, p, s, what, got, want, m.IsOptimized(), len(set))
+	}
+	if pg && !pw && c17IsMergedClassCase(p) {
+		return ev.FailSig(c17SigMergedClass, msg, p, s, what, got, want, m.IsOptimized(), len(set))
+	}
+	if !pg && pw && c17IsPrefixSliceCase(p, s) {
+		return ev.FailSig(c17SigPrefixSlice, msg, p, s, what, got, want, m.IsOptimized(), len(set))
 	}
 	return ev.Failf(msg, p, s, what, got, want, m.IsOptimized(), len(set))
 }
